@@ -66,7 +66,7 @@ CHECKS.update({
     "C03": hist("TestC03", GEN + "All three policies x all workload kinds with scale/app deletion/finished pods/dropped events, ending in "
                 "quiesce. Oracle: reference model of doc/float-ip.md - no premature release at every unbind/resync evaluation, no leak at "
                 "every quiescence (an allocation owned by the empty key counts as a leak). Up to two replica lookups of custom-resource apps fail "
-                "with an internal error. Non-trivial = >=1 keep and >=1 release decision evaluated and a scale/app delete in the history.",
+                "with an internal error; one history in six starts with a story (an immutable deployment scaled from 3 to 2 while two of its pods go away, the two delete events handled concurrently under alternating, prefix and random schedules) and every unbind - alone or overlapping other unbinds - must leave an existing immutable deployment min(IPs held, replicas) IPs; a quarter of the statefulsets leave spec.replicas unset whenever they have one replica (galaxy-ipam reads that as 1; a deployment's field is dereferenced unconditionally - the API server defaults it - so it is never left out). Non-trivial = >=1 keep and >=1 release decision evaluated and a scale/app delete in the history.",
                 quick=10000, floors={"keep_decision": 0.1, "release_decision": 0.1}),
     "C04": hist("TestC04", GEN + "Biased to same-name re-creation with late/duplicate unbind sources, resync, API release, reloads that keep "
                 "the IP, pod-IP sync. Oracle after every op and scheduler step: every live bound pod's still-configured IP is allocated to "
@@ -75,7 +75,7 @@ CHECKS.update({
                 "request_ip_range between incarnations.", quick=7000, floors={"same_name_recreated": 0.3}, enum=True),
     "C10": hist("TestC10", GEN + "Recording cloud provider with cleanly failing calls. Oracle: per-IP state machine none|on(node) replayed "
                 "over the call log after every op/step (no assign to a second node while assigned, live bound pod's IP on its node, free "
-                "IP unassigned). Non-trivial = a pod identity was bound on two different nodes or a provider call failed.",
+                "IP unassigned). Configuration reloads and pod-IP syncs are drawn too, and a third of the histories contain a story: an address is taken out of the configuration under a running pod and put back, the pod-IP sync re-creates its record from the pod, the pod is deleted (event handled, or missed and left to resync). An address de-configured while assigned is exempt (its record is deleted without a provider call, which no clause forbids) until the record of the very pod it was taken from is back or the address is assigned afresh. Non-trivial = a pod identity was bound on two different nodes or a provider call failed.",
                 quick=5000, floors={"provider_call_failed": 0.05}),
 })
 
@@ -86,7 +86,7 @@ CHECKS["C05"] = {"pkg": "ipamsim", "test": "TestC05", "level": "fault_enumeratio
             "administrator's labelled object whose add/delete events arrive early, late or never). A fault-free run records galaxy-ipam's "
             "API-call trace; then the history is re-executed once per selected (op, call index) x {error, crash-before, crash-after} "
             "(quick: 4-10 generated indices per history; thorough: every index). Oracle: memory == store for every configured IP after "
-            "every completed op, a restarted plugin reconstructs the same tables, and after a crash + restart + one resync + one pod-IP "
+            "every completed op (an entry of the free table that still reports a key counts as a disagreement: ByIP and ByPrefix answer from it), a restarted plugin reconstructs the same tables, and after a crash + restart + one resync + one pod-IP "
             "sync: ownership invariants, no leaked IP, every live bound pod owns its IP. Non-trivial = a fault index fell inside an op "
             "issuing >= 3 API calls; evaluations counts histories, coverage.extra counts fault runs and hits per call kind.",
     "assumptions": HIST_ASSUME + ["single fault per run; an erroring call has no effect (lost responses are not modelled)",
@@ -98,7 +98,7 @@ CHECKS["C07"] = hist("TestC07", "rapid draws topologies, 1-3 deployments sharing
     "POST /v1/pool with preAllocateIP, pool size update, unbind - interleaved by the cooperative scheduler at every lister/IPAM/API call; "
     "a quarter of the histories carry one failing API-server call (internal/conflict/timeout/already-exists) of one operation; the pod cache lags in a third of the cases. "
     "Oracle after every op and every scheduler step: #IPs keyed under pool__<name>_ <= max(count when the op/episode started, largest "
-    "size in force in truth or lister during it, or since the successful filter of a pod of the pool whose bind is still to come - a scheduling attempt is filter + bind, and a pool without Pool object is capped by replicas, not by a size). Non-trivial = an episode in which >= 2 ops overlapped; distinct by SHA-1 of the case.",
+    "size in force in truth or lister during it, or since the successful filter of a pod of the pool whose bind is still to come - a scheduling attempt is filter + bind, and a pool without Pool object is capped by replicas, not by a size). One case in 40 is a start-up scenario instead of a history: a Pool object of size 0-2 and 1-4 pods of a deployment sharing it exist, galaxy-ipam is started the way server.Start does it (the real IPAMContext with its informers over fake clientsets whose initial list of one resource - pools, floatingips, pods, deployments, nodes - takes 150-300 ms, then the plugin), the pods are filtered and bound at once, and the pool must not hold more IPs than its size. Non-trivial = an episode in which >= 2 ops overlapped; distinct by SHA-1 of the case.",
     quick=5000, thorough=120000, floors={"episode_overlapped": 0.2, "pre_allocation": 0.1}, enum=True)
 CHECKS["C09"] = hist("TestC09", GEN + "Sequences of 2-4 configurations (ranges shrink/grow/move, pools disappear, node subnets change), "
     "administrator reservations (labelled FloatingIP) whose watch event is delivered early/late/never, 0-2 reservation stories per history "
@@ -119,7 +119,7 @@ IPAM_ASSUME = ["fake API server (client-go object tracker); pre-states are built
 CHECKS["C06"] = {"pkg": "ipamsim", "test": "TestC06", "level": "exploration",
     "quick": {"checks": 12000, "shards": 4, "timeout": 900}, "thorough": {"checks": 200000, "shards": 16, "timeout": 2400, "test": "TestC06All"},
     "rule": "rapid draws a topology (pools sharing pod subnets with disjoint ranges, node subnets shared by pools, /32 node subnets), 1-6 nodes "
-            "(some outside every subnet or without InternalIP), a pre-state (random allocations to other owners, one pool exhausted), a pod "
+            "(some outside every subnet or without InternalIP; a fifth dual-stack: hostname, external address, the IPv4 internal address and an IPv6 internal address after it), a pre-state (random allocations to other owners, one pool exhausted), a pod "
             "(statefulset/deployment/custom resource/bare; default/immutable/never; 0-3 requested range lists; 0-2 IPs already held) and a "
             "candidate node subset. Oracle computed from the configuration text model: exact filter set for fresh default-policy pods, "
             "routability of held IPs, bind on a returned node succeeds, every payload IP routable from the node with its pool's mask/"
@@ -131,7 +131,7 @@ CHECKS["C08"] = {"pkg": "ipamsim", "test": "TestC08", "level": "fault_enumeratio
     "rule": "rapid draws a topology, k=1-4 pairwise-disjoint requested range lists (some partly outside the configuration), a pre-state "
             "(IPs owned by others, 0-2 IPs of the ranges already owned by the same key) and a node; for every index j=0..k the j-th "
             "FloatingIP creation is made to fail (j=0: no fault), at two levels: AllocateInSubnetsAndIPRange directly and Filter->Bind "
-            "through the plugin. Oracle: success => exactly one distinct routable IP per list in request order, pre-owned IPs reused; "
+            "through the plugin; in half of the cases with pre-owned IPs galaxy-ipam restarts (re-reads configuration and store) before the plugin-level request. Oracle: success => exactly one distinct routable IP per list in request order, pre-owned IPs reused; "
             "failure => tables and store equal the pre-state; success iff the model says every list has a free routable IP. "
             "Non-trivial = k>=2 and (a creation failed at index >=1, a range was exhausted, or a range was pre-owned).",
     "assumptions": IPAM_ASSUME + ["no cloud provider (the statement is about store calls)", "a failing creation has no effect"],
@@ -144,7 +144,7 @@ CHECKS["C11"] = {"pkg": "ipamsim", "test": "TestC11", "level": "exploration",
             "plural-looking and double-s endings (Redis, Process, Ingress, StorageClass, generated), case variants, two owners}, pool "
             "name in {none, DNS-1123}, plus page in [-1,100000] and size in [-1,10000]. Oracle: distinct pods => distinct keys; "
             "ParseKey(FormatKey(p)) returns pod/app/namespace/type/pool; prefixes are prefixes; then through the real /v1/ip routes on a "
-            "real plugin: walking all pages shows every IP exactly once with consistent first/last/total; every releasable listed entry "
+            "real plugin: walking all pages - and on past the last one, as a client does that asks for the next page until one comes back empty - shows every IP exactly once with consistent first/last/total; every releasable listed entry "
             "posted back verbatim (statefulset entries also with appType omitted) frees exactly that IP, non-releasable ones free nothing. "
             "Non-trivial = >=3 distinct owner kinds among the allocations and >=2 pages.",
     "assumptions": ["names are DNS-1123 (no '_'), pool names are Pool object names", "fake API server; allocations made through the real IPAM"],
@@ -201,7 +201,7 @@ CHECKS["C14"] = {"pkg": "netsim", "test": "TestC14", "level": "exploration",
             "After every operation: every live pod's recorded host ports are bound by galaxy and pairwise distinct, no other port of the "
             "universe and no random port handed out earlier is bound, the nat table holds exactly the mappings of the live pods (pod IP = "
             "what the plugin reported), foreign chains byte-identical, the saved port file exists iff the container is live with ports, the "
-            "annotation equals what was set up; right after a failed ADD none of its ports is bound; after the final teardown nothing is left. In a third of the cases a pod with random ports only is set up a second time without a teardown in between: the ports handed out by the second setup must be > 0 and held. Non-trivial = stale galaxy chains and foreign rules present, >=2 pods, >=1 port.",
+            "annotation equals what was set up; right after a failed ADD none of its ports is bound; after the final teardown nothing is left. In a third of the cases a pod with random ports only is set up a second time without a teardown in between: the ports handed out by the second setup must be > 0 and held. In a quarter of the cases the teardown of a pod with random ports is overlapped by the set-up of its successor under the same name (hook VerifAfterClose starts the successor's OpenHostports right after the teardown has closed a socket): the successor's ports are held while it lives and free after its own teardown (a socket of this process still bound to the port although the handler has forgotten it is a violation). Non-trivial = stale galaxy chains and foreign rules present, >=2 pods, >=1 port.",
     "assumptions": E3_ASSUME + ["every C14 test process re-executes itself in a private network namespace (unshare -n) so that parallel shards and unrelated processes cannot take a host port between two steps; without namespace support it stays in the shared namespace (class private_netns shows which)", "EnsureBasicRule/full sync ran before per-pod Setup/Clean (as galaxy does at start-up)",
                                 "an explicit port lost to another process between selection and use makes the case inconclusive (counted in coverage.extra)"],
     "floors": {"stale_galaxy_chains": 0.3, "foreign_rules": 0.3}}
@@ -247,9 +247,9 @@ CHECKS["C17"] = {"pkg": "gcsim", "test": "TestC17", "level": "fault_enumeration"
             "daemon 500, connection reset; containerd mode: sandbox READY, NOTREADY x {pod missing, containers running/waiting/terminated, "
             "apiserver error}, NotFound, Unavailable), IP-reservation files named by IP in two dirs (content id, id\\nif, id\\r\\nif, "
             "padded), state/port files in three gc dirs, non-IP names, empty IP files, sub-directories, a missing configured dir, and a "
-            "failing port-clean callback. The real flannel GC runs two rounds against a Docker Engine API stub / CRI gRPC stub on unix "
+            "failing port-clean callback, and 0-3 changes between the first and the second round (a container exits, an exited docker container is started again, the runtime starts or stops failing; the state files of the container may be back). The same flannel GC instance runs three rounds against a Docker Engine API stub / CRI gRPC stub on unix "
             "sockets. Oracle per file: removed only if a successful runtime answer says the container is gone or exited; never on runtime "
-            "errors or for live states; everything of a dead container gone after <= 2 rounds incl. the port-clean callback; other files "
+            "errors or for live states - judged by the answer of the round in which the file disappears; everything of a dead container gone after <= 2 rounds incl. the port-clean callback; other files "
             "and directories untouched. Non-trivial = live, dead and erroring containers in the same case.",
     "assumptions": ["fake container runtimes speaking the Docker Engine HTTP API and the CRI RuntimeService gRPC API; the veth collector (netlink) is not exercised",
                     "NOTREADY sandbox whose pod still has running/waiting containers counts as alive (the code's own rule)"],
@@ -268,7 +268,7 @@ CHECKS["C18"] = {"pkg": "robust", "test": "(TestC18|FuzzC18.*)", "level": "explo
             "real routes; CNI request bytes and networks annotations through the real /cni handler; galaxy JSON configuration -> "
             "checkNetworkConf -> ADD/DEL; generated valid NetworkPolicies -> full syncs and pod/policy events on strict fakes; "
             "ParseIPRange, IPNet/IPRange JSON, ParseCIDR, ParseIPv4Mask, annotation and args parsers. Oracle: the call returns a value or an "
-            "error (no panic, 30 s watchdog), a benign follow-up request on the same instance answers, tables stay disjoint. quick also "
+            "error (no panic, 30 s watchdog) - also when one API-server call made while a configuration, pod or HTTP request is handled fails (a third of those cases: the k-th call, k=1-6, answers internal/timeout/conflict/notfound/already-exists) -, a benign follow-up request on the same instance answers, tables stay disjoint. quick also "
             "replays the fuzz seed corpus. Non-trivial = the input passed the first decoder (reached logic). Ranges of more than 2^16 "
             "addresses are outside the claimed domain.",
     "assumptions": ["range walks over more than 2^16 addresses are not generated (legitimately slow, not claimed)",
@@ -283,7 +283,7 @@ CHECKS["C19"] = {"pkg": "racesim", "test": "TestC19", "level": "exploration", "r
             "Filter, Filter+Bind (one bind per pod), Preempt, pod update/finish/delete events feeding 5 unbind loops, resync and pod-IP sync "
             "(one goroutine), add/delete watch events of administrator-labelled FloatingIP objects through the handlers the IPAM registered (one goroutine), /v1/ip list and release, pool create/update with pre-allocation, ConfigMap reload (one goroutine), Prometheus "
             "Gather on the IPAM collector, recording cloud provider; (b) galaxy: concurrent CNI ADD/DEL of multi-network pods (networks from the json configuration and networks that exist only as "
-            "files of the network conf dir, resolved per request) through the real handler and fake plugins, policy manager add/update/delete/pod events and full syncs on the mutex-protected strict fakes, "
+            "files of the network conf dir, resolved per request) through the real handler and fake plugins, policy manager add/update/delete/pod events (the policy enters and leaves the lister before its handler runs, so deletes leave chains kept for a second sweep) and full syncs on the mutex-protected strict fakes, "
             "port-mapping open/close/setup/clean/full sync. Oracle: Go race detector reports (GORACE halt_on_error=0), attributed to galaxy "
             "only when the innermost non-runtime frame of both access stacks lies in /repo (harness frames => inconclusive), de-duplicated "
             "by the unordered pair of frames; runtime fatal errors (concurrent map access) end the process and are reported too. "
